@@ -620,6 +620,12 @@ func structural(l *loader, facts map[string]any, out string) {
 var shapeFuncs = []struct{ pkg, recv, name string }{
 	{"common", "Deadline", "SetDeadline"},
 	{"common", "Deadline", "timeoutFor"},
+	{"authgrants", "AuthgrantMapSync", "RemoveAuthgrants"},
+	{"authgrants", "AuthgrantMapSync", "AddAuthGrant"},
+	{"tubes", "Reliable", "send"},
+	{"tubes", "Unreliable", "initiate"},
+	{"tubes", "Reliable", "initiate"},
+	{"transport", "Client", "clientHandshakeLocked"},
 }
 
 func recvName(fd *ast.FuncDecl) string {
@@ -654,6 +660,10 @@ func shapeStmts(list []ast.Stmt, depth int, out *[]string) {
 	for _, st := range list {
 		switch s := st.(type) {
 		case *ast.IfStmt:
+			if s.Init != nil {
+				// `if x := f(); cond`: the initialiser is a statement of its own, at the same depth
+				shapeStmts([]ast.Stmt{s.Init}, depth, out)
+			}
 			add("if", exprStr(s.Cond))
 			shapeStmts(s.Body.List, depth+1, out)
 			switch e := s.Else.(type) {
@@ -683,12 +693,30 @@ func shapeStmts(list []ast.Stmt, depth int, out *[]string) {
 				shapeStmts(cc.Body, depth+1, out)
 			}
 		case *ast.SwitchStmt:
-			add("switch", "")
+			tag := ""
+			if s.Tag != nil {
+				tag = exprStr(s.Tag)
+			}
+			add("switch", tag)
 			for _, c := range s.Body.List {
-				shapeStmts(c.(*ast.CaseClause).Body, depth+1, out)
+				cc := c.(*ast.CaseClause)
+				var es []string
+				for _, e := range cc.List {
+					es = append(es, exprStr(e))
+				}
+				if cc.List == nil {
+					add("default", "")
+				} else {
+					add("case", strings.Join(es, ", "))
+				}
+				shapeStmts(cc.Body, depth+1, out)
 			}
 		case *ast.BlockStmt:
 			shapeStmts(s.List, depth, out)
+		case *ast.LabeledStmt:
+			shapeStmts([]ast.Stmt{s.Stmt}, depth, out)
+		case *ast.DeclStmt:
+			add("decl", "")
 		case *ast.ReturnStmt:
 			var rs []string
 			for _, r := range s.Results {
